@@ -472,7 +472,9 @@ def splitAt (h : Heap) (s : Handle) (bitIndex : Nat) : Heap × Option (Handle ×
 
 /-- `detach(self)`: the receiver is consumed -/
 def detach (h : Heap) (s : Handle) : Outcome (Heap × Handle) :=
-  if (h.buf s.buf).rc == 1 then .ok (h, s)
+  -- a value that does not start at bit 0 is rebuilt even when uniquely owned (repair e3b1a9c):
+  -- where the result starts does not depend on who else holds the buffer
+  if (h.buf s.buf).rc == 1 && s.start == 0 then .ok (h, s)
   else if s.end_ - s.start == 0 then
     let (h1, t) := new h
     .ok (drop h1 s, t)
